@@ -721,6 +721,23 @@ def solve_calls_in(ctx, f):
     return [c for nm in solve_names(ctx) for c in calls_of(f, nm)]
 
 
+def _delegate_fields(ctx, m):
+    """Field names of the named tuple the delegate returns (every return is a display of the same named-tuple type), else None."""
+    key = ("delegate_fields", m)
+    if key not in ctx.cache:
+        out = None
+        f = ctx.prog.classes["StochasticGame"].methods.get(m)
+        if f is not None:
+            names = set()
+            for r in walk_no_nested_defs(f.node):
+                if isinstance(r, ast.Return):
+                    names.add(getattr(r.value, "_nt_name", None))
+            if len(names) == 1 and None not in names:
+                out = getattr(f.mod, "named_tuples", {}).get(next(iter(names)))
+        ctx.cache[key] = out
+    return ctx.cache[key]
+
+
 def as_solve(ctx, t):
     """Rename `obj.M()` to `obj.solve()` under a slot index the two share (see solve_delegate)."""
     d = solve_delegate(ctx)
@@ -728,6 +745,15 @@ def as_solve(ctx, t):
         return t
     from ..symx import subst, is_const
     m, n = d
+    fields = _delegate_fields(ctx, m)
+    if fields:
+        def h(x):
+            if x[0] == "attr" and x[1][0] == "mcall" and x[1][2] == m and not x[1][3] and not x[1][4] and x[2] in fields:
+                return ("idx", x[1], ("c", fields.index(x[2])))
+            if x[0] == "attr" and x[1][0] == "tup" and len(x[1][1]) == len(fields) and x[2] in fields:
+                return x[1][1][fields.index(x[2])]          # a constant of that type (NO_SOLUTION.rewards)
+            return None
+        t = subst(t, h)
 
     def g(x):
         if x[0] == "idx" and x[1][0] == "mcall" and x[1][2] == m and not x[1][3] and not x[1][4] and is_const(x[2]) and isinstance(x[2][1], int) \
@@ -735,3 +761,63 @@ def as_solve(ctx, t):
             return ("idx", ("mcall", x[1][1], "solve", (), ()), x[2])
         return None
     return subst(t, g)
+
+
+class Recorder:
+    """Collects the verdicts of a rule run so that two runs (on two views of the same function) can be compared before one of them
+    is reported."""
+    def __init__(self, chk=None):
+        self.items = []
+        self.extra = {}
+        self._chk = chk
+
+    def ok(self, rule, where, text, **kw):
+        self.items.append(("ok", rule, where, text, kw))
+
+    def violation(self, rule, where, text, **kw):
+        self.items.append(("violation", rule, where, text, kw))
+
+    def undecided(self, rule, where, text, **kw):
+        self.items.append(("undecided", rule, where, text, kw))
+
+    def note(self, *a, **kw):
+        self.items.append(("note", None, None, a, kw))
+
+    def count(self, kind):
+        return sum(1 for i in self.items if i[0] == kind)
+
+    def replay(self, chk, only=None):
+        for kind, rule, where, text, kw in self.items:
+            if only is not None and kind not in only:
+                continue
+            if kind == "note":
+                chk.note(*text, **kw)
+            else:
+                getattr(chk, kind)(rule, where, text, **kw)
+        for k, v in self.extra.items():
+            chk.extra[k] = v
+
+
+def on_both_views(ctx, chk, qual, run):
+    """run(recorder, f) on the documented-configuration view of `qual` and on its all-options view.  A violation found in either
+    is a violation (each names a construct of the program); otherwise the view that leaves less undecided is reported."""
+    doc = ctx.func(qual)
+    allv = ctx.prog.pipeline_view(qual, all_options=True)
+    a = Recorder()
+    run(a, doc)
+    if allv.node is doc.node:
+        a.replay(chk)
+        return
+    b = Recorder()
+    try:
+        run(b, allv)
+    except AnalysisError as e:
+        b.undecided("-", allv.where(), str(e))
+    if a.count("violation"):
+        a.replay(chk)
+    elif b.count("violation"):
+        b.replay(chk)
+    elif b.count("undecided") < a.count("undecided"):
+        b.replay(chk)
+    else:
+        a.replay(chk)
